@@ -343,6 +343,10 @@ pub fn run(ctx: &Ctx, id: &str, opts: &Opts) -> i32 {
         done += 1;
         total.merge(&r.stats);
         digests.push_str(&format!("{i} {:016x}\n", r.stats.digest()));
+        if let Ok(d) = std::env::var("ZSIM_DUMP_EVENTS") {
+            let _ = std::fs::create_dir_all(&d);
+            let _ = std::fs::write(format!("{d}/{i}.log"), r.stats.events.join("\n"));
+        }
         if let Some(e) = &r.herr {
             herrs.push((i as u64, e.clone()));
         }
